@@ -140,6 +140,8 @@ def structure(doc_type, nmembers, commissioning="both"):
     di.revision_number = sx.fresh_int("revision", 0, 0xFFFFFFFF)
     di.nr_of_RXPDO, di.nr_of_TXPDO = 4, 2
     di.simple_boot_up_master, di.simple_boot_up_slave, di.LSS_supported = False, True, True
+    di.granularity = sx.fresh_int("granularity", 0, 64)
+    di.dynamic_channels_supported, di.group_messaging = False, True
     di.allowed_baudrates.add(125000)
     di.allowed_baudrates.add(1000000)
     if doc_type == "dcf":
@@ -177,6 +179,10 @@ def structure(doc_type, nmembers, commissioning="both"):
              and d2.nr_of_RXPDO == 4 and d2.nr_of_TXPDO == 2 and d2.simple_boot_up_slave is True
              and d2.simple_boot_up_master is False and d2.LSS_supported is True, "device information",
              tag + "/device-info")
+    sx.prove(d2.granularity is not None and type(d2.granularity) is not bool and d2.granularity == di.granularity,
+             "granularity", tag + "/device-granularity")
+    sx.prove(d2.dynamic_channels_supported is False and d2.group_messaging is True, "device flags",
+             tag + "/device-flags")
     sx.prove(sorted(d2.allowed_baudrates) == [125000, 1000000], "allowed bit rates", tag + "/baudrates")
     sx.prove(od2.comments == od.comments, "comments", tag + "/comments")
     if doc_type == "dcf":
